@@ -1,4 +1,5 @@
 From MpV Require Import Lib.Tac Lib.Conc Model.BatchWorker.
+From Coq Require Import ZifyBool.
 Open Scope nat_scope.
 Local Arguments good_uids : simpl never.
 Local Arguments goods : simpl never.
@@ -262,4 +263,243 @@ Proof.
   intros Hb. destruct (inva_run g sched Hb) as [_ _ _ Hk].
   assert (H : NoDup (good_uids g (env_next (run step g (init g) sched)))) by apply good_from_nodup.
   rewrite <- Hk in H. eapply nodup_app_l; eauto.
+Qed.
+
+(* ---------------------------------------------------------------------------------------------- *)
+(* Invariant B: buffer capacity and the stop protocol (for the code as it is now: locked_check)    *)
+(* ---------------------------------------------------------------------------------------------- *)
+
+Definition c_room (c : cpc) : bool := match c with CGet | CProc _ => true | _ => false end.
+Definition c_fullwait (c : cpc) : bool := match c with CFullWait => true | _ => false end.
+Definition c_enter (c : cpc) : bool := match c with CEnterWait => true | _ => false end.
+Definition c_stopping (c : cpc) : bool := match c with CStop1 | CStop2 | CDone => true | _ => false end.
+Definition c_tookstop (c : cpc) : bool := match c with CProc Stop | CStop1 | CStop2 | CDone => true | _ => false end.
+Definition b_putback (b : bpc) : bool := match b with BPutBack _ => true | _ => false end.
+Definition b_stopped (b : bpc) : bool := match b with BStop1 | BStop2 | BDone => true | _ => false end.
+
+Lemma its_snoc_stop l : its (l ++ [Stop]) = its l.
+Proof.
+  induction l as [|[u k|] r IH]; cbn; auto.
+  rewrite all_stop_app. cbn. now rewrite andb_true_r.
+Qed.
+
+Lemma its_snoc_item l u k : its (l ++ [Item u k]) = its l && negb (has_stop l).
+Proof.
+  induction l as [|[u' k'|] r IH]; cbn; auto.
+  rewrite all_stop_app. cbn. now rewrite !andb_false_r.
+Qed.
+
+Lemma its_cons m r : its (m :: r) = true -> its r = true.
+Proof. destruct m; cbn; auto. apply all_stop_its. Qed.
+
+Record InvB (g : cfg) (s : state) : Prop := {
+  b_cap : length (buf s) <= bsize g + 10;
+  b_room : c_room (cp s) = true -> length (buf s) < bsize g + 10;
+  b_wait : c_fullwait (cp s) = true -> woken s = false -> bsize g + 10 <= length (buf s);
+  b_noenter : c_enter (cp s) = false;
+  b_stop_c : (b_putback (bp s) || b_stopped (bp s)) || has_stop (buf s) = true -> c_stopping (cp s) = true;
+  b_stop_b : c_stopping (cp s) = true -> has_stop (buf s) || (b_putback (bp s) || b_stopped (bp s)) = true;
+  b_envdone : length (reqs g) < env_next s -> has_stop (qin s) || c_tookstop (cp s) = true;
+  b_pbroom : b_putback (bp s) = true -> length (buf s) < bsize g + 10;
+  b_early : env_next s <= length (reqs g) -> has_stop (qin s) = false /\ c_tookstop (cp s) = false;
+  b_its_q : its (qin s) = true;
+  b_its_b : its (buf s) = true;
+  b_qstops : c_tookstop (cp s) = true -> all_stop (qin s) = true;
+  b_bstops : b_stopped (bp s) = true -> all_stop (buf s) = true;
+  b_envle : env_next s <= S (length (reqs g));
+  b_tookstop : c_stopping (cp s) = true -> c_tookstop (cp s) = true
+}.
+
+Lemma invb_init g : InvB g (init g).
+Proof. constructor; cbn; auto; try discriminate; try lia. Qed.
+
+(* the list facts as boolean equations, then linear arithmetic over opaque boolean atoms *)
+Ltac bnorm :=
+  cbn [env_next qin buf qout cp bp flag woken calls c_room c_fullwait c_enter c_stopping c_tookstop b_putback b_stopped
+       is_stop has_stop all_stop existsb forallb its length] in *;
+  rewrite ?has_stop_app, ?all_stop_app, ?its_snoc_stop, ?its_snoc_item, ?app_length in *;
+  cbn [is_stop length] in *.
+
+Ltac fold_lists :=
+  repeat match goal with
+         | H : context [existsb is_stop ?l] |- _ => change (existsb is_stop l) with (has_stop l) in H
+         | |- context [existsb is_stop ?l] => change (existsb is_stop l) with (has_stop l)
+         | H : context [forallb is_stop ?l] |- _ => change (forallb is_stop l) with (all_stop l) in H
+         | |- context [forallb is_stop ?l] => change (forallb is_stop l) with (all_stop l)
+         end.
+
+Ltac fin := bnorm; fold_lists; bnorm; first [assumption | lia | (apply all_stop_its; first [assumption | lia])].
+Ltac invb_close H1 H2 H3 H4 H5 H6 H7 H8 H9 H10 H11 H12 H13 H14 H15 :=
+  constructor;
+  [> clear H3 H4 H5 H6 H7 H9 H10 H11 H12 H13 H14 H15; fin
+   | clear H3 H4 H6 H7 H8 H9 H10 H11 H12 H13 H14 H15; fin
+   | clear H2 H4 H5 H6 H7 H8 H9 H10 H11 H12 H13 H14 H15; fin
+   | clear H1 H2 H3 H5 H6 H7 H8 H9 H10 H11 H12 H13 H14 H15; fin
+   | clear H1 H2 H3 H4 H7 H8 H9 H10 H11 H12 H13 H14; fin
+   | clear H1 H2 H3 H4 H7 H8 H9 H10 H11 H12 H13 H14 H15; fin
+   | clear H1 H2 H3 H4 H5 H6 H8 H10 H11 H12 H13 H15; fin
+   | clear H3 H4 H6 H7 H9 H10 H11 H12 H13 H14 H15; fin
+   | clear H1 H2 H3 H4 H6 H7 H8 H10 H11 H12 H13; fin
+   | clear H1 H2 H3 H4 H5 H6 H7 H8 H11 H12 H13 H14 H15; fin
+   | clear H1 H2 H3 H4 H6 H7 H8 H9 H10 H12 H13 H14 H15; fin
+   | clear H1 H2 H3 H4 H5 H6 H7 H8 H11 H13 H14 H15; fin
+   | clear H1 H2 H3 H4 H6 H7 H8 H9 H10 H12 H14 H15; fin
+   | clear H1 H2 H3 H4 H5 H6 H7 H8 H9 H10 H11 H12 H13 H15; fin
+   | clear H1 H2 H3 H4 H5 H6 H7 H8 H9 H10 H11 H12 H13 H14; fin ].
+
+Lemma c_stopping_noroom c : c_stopping c = true -> c_room c = false.
+Proof. destruct c; cbn; auto; discriminate. Qed.
+
+Lemma invb_env g s s' e : InvB g s -> step_env g s = Some (s', e) -> InvB g s'.
+Proof.
+  intros [H1 H2 H3 H4 H5 H6 H7 H8 H9 H10 H11 H12 H13 H14 H15] H. unfold step_env in H.
+  destruct (nth_error (reqs g) (env_next s)) as [k|] eqn:En.
+  - assert (Hlt : env_next s < length (reqs g)) by (apply nth_error_Some; congruence).
+    inv H. invb_close H1 H2 H3 H4 H5 H6 H7 H8 H9 H10 H11 H12 H13 H14 H15.
+  - destruct (Nat.eqb (env_next s) (length (reqs g))) eqn:E; [|discriminate]. bool_to_prop. inv H.
+    invb_close H1 H2 H3 H4 H5 H6 H7 H8 H9 H10 H11 H12 H13 H14 H15.
+Qed.
+
+Lemma invb_c g s s' e : locked_check g = true -> InvB g s -> step_c g s = Some (s', e) -> InvB g s'.
+Proof.
+  intros HL [H1 H2 H3 H4 H5 H6 H7 H8 H9 H10 H11 H12 H13 H14 H15] H. unfold step_c, with_cp, is_full, cap in H.
+  destruct s as [n qi bf qo c b fl wk cs]; cbn [env_next qin buf qout cp bp flag woken calls] in *. rewrite HL in H.
+  destruct c as [| | | |m| | | | | | | |]; break_match_hyp H; inv H; bool_to_prop.
+  all: try (match goal with m : msg |- _ => destruct m end).
+  all: invb_close H1 H2 H3 H4 H5 H6 H7 H8 H9 H10 H11 H12 H13 H14 H15.
+Qed.
+
+Lemma invb_b g s ex s' e : InvB g s -> step_b g s ex = Some (s', e) -> InvB g s'.
+Proof.
+  intros [H1 H2 H3 H4 H5 H6 H7 H8 H9 H10 H11 H12 H13 H14 H15] H. unfold step_b, with_bp, is_full, cap, pop_notify in H.
+  destruct s as [n qi bf qo c b fl wk cs]; cbn [env_next qin buf qout cp bp flag woken calls] in *.
+  pose proof (c_stopping_noroom c) as Hsr.
+  destruct b as [|l|l|l|l|f l| | |]; destruct ex; try discriminate H; try (destruct l; discriminate H);
+    break_match_hyp H; inv H; bool_to_prop.
+  all: try (match goal with m : msg |- _ => destruct m end).
+  all: invb_close H1 H2 H3 H4 H5 H6 H7 H8 H9 H10 H11 H12 H13 H14 H15.
+Qed.
+
+Lemma invb_csilent g s s' e : locked_check g = true -> step_csilent g s = Some (s', e) -> InvB g s'.
+Proof. intros HL H. unfold step_csilent in H. rewrite HL in H. discriminate. Qed.
+
+Lemma invb_step g s l s' e : locked_check g = true -> InvB g s -> step g s l = Some (s', e) -> InvB g s'.
+Proof.
+  intros HL HI H. destruct l; cbn in H.
+  - eapply invb_env; eauto.
+  - eapply invb_c; eauto.
+  - eapply invb_csilent; eauto.
+  - eapply invb_b; eauto.
+Qed.
+
+Lemma invb_run g sched : locked_check g = true -> InvB g (run step g (init g) sched).
+Proof.
+  intros HL. apply (inv_run step g (InvB g)); [intros; eapply invb_step; eauto | apply invb_init].
+Qed.
+
+Definition c_blocked (g : cfg) (s : state) : Prop :=
+  match cp s with
+  | CFullWait => woken s = false
+  | CEnterWait => True
+  | CGet => qin s = []
+  | CProc Stop | CProc (Item _ KGood) => is_full g s = true
+  | CDone => True
+  | _ => False
+  end.
+
+Lemma c_blocked_of g s : locked_check g = true -> step_c g s = None -> c_blocked g s.
+Proof.
+  intros HL H. unfold step_c, c_blocked in *. rewrite HL in H.
+  destruct (cp s) as [| | | |[u [| |]|]| | | | | | | |]; try discriminate H; auto.
+  - destruct (is_full g s); discriminate.
+  - destruct (woken s); [|reflexivity]. destruct (is_full g s); discriminate.
+  - destruct (qin s); [reflexivity|discriminate].
+  - destruct (is_full g s); [reflexivity|discriminate].
+  - destruct (is_full g s); [reflexivity|discriminate].
+  - destruct (qin s); discriminate.
+Qed.
+
+Definition b_blocked (g : cfg) (s : state) : Prop :=
+  match bp s with
+  | BIdle => buf s = []
+  | BPutBack _ => is_full g s = true
+  | BOut _ [] => True
+  | BDone => True
+  | _ => False
+  end.
+
+Lemma b_blocked_of g s : step_b g s false = None -> step_b g s true = None -> b_blocked g s.
+Proof.
+  intros H Ht. unfold step_b, b_blocked in *.
+  destruct (bp s) as [|l|l|l|l|f [|u r]| | |]; try discriminate H; try discriminate Ht; auto.
+  - destruct (buf s); [reflexivity|discriminate].
+  - destruct (is_full g s); [reflexivity|discriminate].
+Qed.
+
+(* a state in which no thread can take a step is the final state: everything has been served and both
+   threads of the worker have returned *)
+Lemma stuck_is_done g s :
+  locked_check g = true -> InvA g s -> InvB g s -> stuck g s = true -> all_done g s = true.
+Proof.
+  intros HL [As _ _ _] HB Hst.
+  unfold stuck in Hst. cbn [step] in Hst.
+  destruct (step_env g s) eqn:Ee; [destruct p; discriminate|].
+  destruct (step_c g s) eqn:Ec; [destruct p; discriminate|].
+  destruct (step_csilent g s) eqn:Es; [destruct p; discriminate|].
+  destruct (step_b g s false) eqn:Eb; [destruct p; discriminate|].
+  destruct (step_b g s true) eqn:Ebt; [destruct p; discriminate|]. clear Hst Es.
+  assert (Hend : length (reqs g) < env_next s).
+  { unfold step_env in Ee. destruct (nth_error (reqs g) (env_next s)) eqn:En; [discriminate|].
+    destruct (Nat.eqb (env_next s) (length (reqs g))) eqn:E; [discriminate|]. bool_to_prop.
+    apply nth_error_None in En. lia. }
+  pose proof (c_blocked_of g s HL Ec) as Hc. pose proof (b_blocked_of g s Eb Ebt) as Hb.
+  clear Ee Ec Eb Ebt.
+  destruct HB as [H1 H2 H3 H4 H5 H6 H7 H8 H9 H10 H11 H12 H13 H14 H15].
+  unfold all_done, c_blocked, b_blocked, is_full, cap in *.
+  destruct s as [n qi bf qo c b fl wk cs]; cbn [env_next qin buf qout cp bp flag woken calls] in *.
+  clear H9 H10 H11 H12 H13 H14.
+  destruct b as [|l|l|l|l|f [|u r]| | |]; try contradiction; cbn [shape_b] in As; try congruence;
+    destruct c as [| | | |[u' [| |]|]| | | | | | | |]; try contradiction; subst; bnorm; bool_to_prop; try lia.
+Qed.
+
+(* ---------------------------------------------------------------------------------------------- *)
+(* statements about every schedule                                                                 *)
+(* ---------------------------------------------------------------------------------------------- *)
+
+(* the only state in which nothing can move is the final one: no interleaving of the producer, the
+   collector and the consumer wedges the worker (time-outs of the timed get are always allowed to fire) *)
+Lemma no_wedge g sched :
+  locked_check g = true -> 1 < bsize g ->
+  stuck g (run step g (init g) sched) = true -> all_done g (run step g (init g) sched) = true.
+Proof.
+  intros HL Hb. apply stuck_is_done; auto using inva_run, invb_run.
+Qed.
+
+(* when the worker has shut down, the batches it was called with are exactly the genuine inputs, each once, in
+   arrival order *)
+Lemma accepted_exactly_once g sched :
+  locked_check g = true -> 1 < bsize g ->
+  all_done g (run step g (init g) sched) = true ->
+  concat (calls (run step g (init g) sched)) = good_uids g (length (reqs g)).
+Proof.
+  intros HL Hb Hd.
+  destruct (inva_run g sched Hb) as [_ _ _ Hk].
+  destruct (invb_run g sched HL) as [_ _ _ _ _ _ _ _ _ _ _ Hq Hbs _ _].
+  unfold all_done in Hd.
+  destruct (cp (run step g (init g) sched)) eqn:Ec; try discriminate Hd.
+  destruct (bp (run step g (init g) sched)) eqn:Eb; try discriminate Hd.
+  apply Nat.ltb_lt in Hd.
+  cbn in Hq, Hbs, Hk.
+  rewrite (all_stop_goods _ (Hq eq_refl)), (all_stop_goods _ (Hbs eq_refl)) in Hk.
+  cbn in Hk. rewrite !app_nil_r in Hk. rewrite Hk. apply good_uids_past. lia.
+Qed.
+
+(* the collector's buffer.put and the consumer's put-back of the end marker never find the buffer full *)
+Lemma puts_never_block g sched :
+  locked_check g = true ->
+  let s := run step g (init g) sched in
+  (c_room (cp s) = true \/ b_putback (bp s) = true) -> is_full g s = false.
+Proof.
+  intros HL s H. destruct (invb_run g sched HL) as [_ Hr _ _ _ _ _ Hp _ _ _ _ _ _ _].
+  fold s in Hr, Hp. unfold is_full, cap. apply Nat.leb_gt. destruct H as [H|H]; auto.
 Qed.
